@@ -103,7 +103,10 @@ func (w *World) BuildFuncUnit(con *Contract) (u *Unit) {
 	entryMem := mem
 	stub := w.stubs[con]
 	nres := fn.Signature.Results().Len()
-	if len(stub.Params) != len(fn.Params)+nres+len(captured) {
+	// the contract may name only some of the captured variables (a literal that comes to capture
+	// one more variable still binds)
+	nStubCaps := len(stub.Params) - len(fn.Params) - nres
+	if nStubCaps < 0 || nStubCaps > len(captured) {
 		u.Failed = fmt.Sprintf("contract %s: stub has %d parameters, function has %d params + %d results + %d captures", con.Key(), len(stub.Params), len(fn.Params), nres, len(captured))
 		return
 	}
@@ -114,8 +117,8 @@ func (w *World) BuildFuncUnit(con *Contract) (u *Unit) {
 		for i, fv := range fn.FreeVars {
 			byName[fv.Name()] = i
 		}
-		ordered := make([][]*Term, len(captured))
-		for k := range fn.FreeVars {
+		ordered := make([][]*Term, nStubCaps)
+		for k := 0; k < nStubCaps; k++ {
 			sp := stub.Params[len(fn.Params)+nres+k]
 			i, ok := byName[sp.Name()]
 			if !ok {
